@@ -555,6 +555,48 @@ func c11QuotePair(p *core.Program, r *core.Report, rule string) {
 		}
 	}
 	r.Check(okU, rule, "visitor.VisitTextLiteral/strconv.Unquote", p.Pos(vtl.Pos()), "text literals are read with strconv.Unquote", "VisitTextLiteral does not unquote with strconv.Unquote")
+	// what is unquoted is the token's text as written: no call stands between GetText() and strconv.Unquote
+	var rawText func(v ssa.Value, in *ssa.Function, depth int) string
+	rawText = func(v ssa.Value, in *ssa.Function, depth int) string {
+		for w := range core.BackSlice(v, nil) {
+			switch x := w.(type) {
+			case *ssa.Call:
+				if o := core.CalleeObj(&x.Call); o == nil || o.Name() != "GetText" {
+					name := "a call"
+					if o != nil {
+						name = core.ObjName(o)
+					}
+					return "it went through " + name + " (" + p.Pos(x.Pos()) + ") first"
+				}
+			case *ssa.Parameter:
+				if in == vtl || depth >= 2 {
+					continue
+				}
+				for k, fp := range in.Params {
+					if fp != x {
+						continue
+					}
+					for _, cs := range p.CallsTo(in) {
+						if cs.Common().StaticCallee() == in && k < len(cs.Common().Args) {
+							if why := rawText(cs.Common().Args[k], cs.Caller, depth+1); why != "" {
+								return why
+							}
+						}
+					}
+				}
+			}
+		}
+		return ""
+	}
+	nU := 0
+	for _, ec := range core.EffectiveCalls(vtl, 2) {
+		if o := core.CalleeObj(ec.Inner.Common()); o != nil && core.ObjName(o) == "strconv.Unquote" {
+			nU++
+			why := rawText(ec.Inner.Common().Args[0], ec.Inner.Caller, 0)
+			r.Check(why == "", rule, "visitor.VisitTextLiteral/unquotes-the-text-as-written", p.Pos(ec.Inner.Pos()), "strconv.Unquote is given the token's own text", "the text handed to strconv.Unquote is not the literal as written: "+why+" — a rewrite that does not know about escaped backslashes (\\\\' is not \\') makes Unquote fail or changes the value, and the other escapes of the literal come back raw")
+		}
+	}
+	r.Count("unquote_calls_for_text_literals", nU)
 }
 
 // quotesFaithfully: every return of fn is strconv.Quote(x) where x is the receiver's Native()/native value with no other
